@@ -11,7 +11,7 @@ filtered node views, mapping views of meta).  A history mutates the list through
     calls changed nothing.
 """
 from __future__ import annotations
-import datetime, decimal, json
+import copy, datetime, decimal, json
 from autobean_refactor import parser as _parser_mod, models
 from autobean_refactor.models import internal
 
@@ -512,6 +512,19 @@ def _real_values(fx, vd, vals):
 def apply_op(fx: Fixture, op, rng=None) -> Step:
     """Apply one op descriptor to the real objects; produce protocol lines, expectations and oracle findings."""
     st = Step()
+    if op['t'] == 'twin':
+        # a deep copy of the raw wrapper (the way a repeated field is copied to another model) is edited: it is another
+        # list, so nothing registered on this one may hear of it - no model step, the views are re-checked as they stand
+        st.via = 'twin'
+        if getattr(fx, 'twin', None) is None:
+            fx.twin = copy.deepcopy(fx.raw)
+        tw = fx.twin
+        if op['op'] == 'pop' and len(tw):
+            tw.pop(op['i'] % len(tw))
+        else:
+            tw.insert(op['i'] % (len(tw) + 1), make_raw(op['vals'][0][0], op['vals'][0][1]))
+        st.bad += check_views(fx)
+        return st
     if op['t'] == 'reg':
         if any(d == op['v'] for d, _ in fx.live):
             return st
@@ -878,6 +891,14 @@ def gen_op(rng, fx: Fixture, ids, allow_errors=True):
     unreg = [k for k in range(nd) if k not in registered]
     if unreg and r < 0.08:
         return {'t': 'reg', 'v': rng.choice(unreg)}
+    if registered and rng.random() < 0.06:
+        ty = rng.choice(fx.raw_tys)
+        v = rng.randrange(50, 58)
+        if ty == CBOOL:
+            v = rng.randrange(2)
+        elif ty in CUSTOM_TYS:
+            v = {CSTR: 1000, CNUM: 3000, CDATE: 2000, CACCOUNT: 4000, CAMOUNT: 5000}[ty] + v
+        return {'t': 'twin', 'op': rng.choice(['insert', 'insert', 'pop']), 'i': rng.randrange(0, 6), 'vals': [[ty, v, ids()]]}
     if r < 0.42 or not registered:
         t, vd, k = 'raw', None, None
         if not registered and rng.random() < 0.5:
